@@ -222,19 +222,23 @@ def run(ctx):
             vlib.write_ndjson(p, [r for e in part for r in e])
             tasks.append((comp, mod, f"{comp}_{j}", p, part))
     lock = threading.Lock()
+    timing = {}
     results = []
 
     def validate(task):
         comp, mod, tag, p, part = task
         sub = SubCtx(ctx)
+        import time as _t
+        t0 = _t.time()
         rej = vlib.validate_executions(sub, os.path.join(SPEC, mod + ".tla"), os.path.join(SPEC, mod + ".cfg"), p,
                                        tag=tag, timeout=1700, heap="5g", max_rejects=4)
         with lock:
             results.append((task, sub, rej))
+            timing[tag] = (round(_t.time() - t0, 1), sum(len(e) for e in part))
     tasks.sort(key=lambda t: -os.path.getsize(t[3]))          # longest first
     with ThreadPoolExecutor(max_workers=14) as ex:
         list(ex.map(validate, tasks))
-    ctx.log(f"{len(tasks)} trace files validated")
+    ctx.log(f"{len(tasks)} trace files validated; slowest (s, events):", sorted(timing.items(), key=lambda kv: -kv[1][0])[:4])
 
     nops = 0
     per_comp = {}
